@@ -101,6 +101,16 @@ def check_tree(prop, tier, seed, work, ops, props_in_model):
             for k, v in (r.get("counters") or {}).items():
                 if k.startswith("queries"):
                     ext[k] = ext.get(k, 0) + v
+        # extension: GetOrCreateNode as an action of the TreeMachine (GOCLaws), replayed like the others
+        for name, consts in (("A", dict(two, enabled="EnabledA")), ("B", dict(two, enabled="EnabledB"))):
+            t = vf.run_tlc(work, "MC_TreeA", TREE_CFG % consts + "CONSTANT\n  WithGOC <- MCWithGOC\n" +
+                           "INVARIANT TypeOK\nPROPERTY GOCLaws\nACTION_CONSTRAINT Emit\n", tag="goc" + name, timeout=1200)
+            states += t["distinct"]; trans += t["states"]
+            r = run_replay(bindir, h, "tree", ["-in", t["out"], "-ops", "goc", "-seed", str(seed), "-prop", "C10", "-pkgs", ",".join(cfgs), "-walks", "0"] + (["-limit", "3"] if tier == "quick" else []), work, "goc" + name)
+            results.append(r)
+            for k, v in (r.get("counters") or {}).items():
+                if k.startswith("goc"):
+                    ext[k] = ext.get(k, 0) + v
     tot = merge_results(results)
     for d in tot["drift"][:20]:
         log("SPEC-DRIFT:", d)
